@@ -118,6 +118,19 @@ def check(col, prog, tier, profile, fixture=None):
             except x87.AsmError as e:
                 col.violation("X1" + sfx, key + "|machine", loc, "%s: %s" % (b.path, e))
                 continue
+            # what the block promises the compiler (options) against what its instructions do
+            opts = str(t.get("options") or "")
+            touches_mem = any("[" in ln for ln in lines)
+            promise = None
+            if "NOMEM" in opts and touches_mem:
+                promise = "is declared `nomem` but reads or writes memory through its pointer operands: the compiler may drop or reorder the stores that initialise them (wrong results in optimised builds only)"
+            elif "READONLY" in opts and m.stores:
+                promise = "is declared `readonly` but stores through a pointer operand: the compiler may assume the destination is unchanged"
+            elif "PRESERVES_FLAGS" in opts and m.flags is not None:
+                promise = "is declared `preserves_flags` but executes a compare that sets EFLAGS"
+            if promise:
+                col.violation("X1" + sfx, key + "|options", loc, "the asm block of %s %s" % (b.path, promise))
+                continue
             if m.stack:
                 col.violation("X1" + sfx, key + "|unbalanced", loc, "%s leaves %d value(s) on the x87 register stack: after eight such calls every result turns into NaN (stack overflow)" % (b.path, len(m.stack)))
                 continue
